@@ -48,7 +48,10 @@ def random_spec(rng, *, S=None, avg=None, smin=3, smax=40, amax=5, emax=5, gamma
         init=str(rng.choice(["none", "none", "const", "random", "far"])),
         ipol=str(rng.choice(["none", "none", "random", "worst"])),
         avg=avg,
+        intrew=bool(rng.random() < 0.12),      # rewards returned with an integer dtype
     )
+    if spec["intrew"] and spec["scale"] < 1.0:
+        spec["scale"] = 10.0
     if avg in ("unichain", "periodic"):
         spec["delta"] = float(rng.choice([0.3, 0.05, 0.01]))
         spec["scale"] = float(10.0 ** rng.integers(-1, 3))
@@ -128,6 +131,8 @@ def build(spec):
         rew = rew + 1.0 * scale
 
     prob = prob / prob.sum(-1, keepdims=True)
+    if spec.get("intrew"):
+        rew = np.round(rew)                     # integer-valued; the Problem hands them out as int32
 
     # ---- interface layout
     sbox = _factor_box(r, S, spec["sdim"])
@@ -152,7 +157,7 @@ def build(spec):
         ipol = r.integers(0, A, size=S)
     elif spec["ipol"] == "worst":
         ipol = (rew * prob).sum(-1).argmin(1)
-    return dict(nxt=nxt.astype(np.int64), rew=rew.astype(float), prob=prob.astype(float),
+    return dict(nxt=nxt.astype(np.int64), rew=rew.astype(float), prob=prob.astype(float), intrew=bool(spec.get("intrew")),
                 sbox=sbox, abox=abox, ebox=ebox, sorigin=so, sperm=sperm,
                 init=init, ipol=ipol)
 
@@ -174,7 +179,7 @@ def zero_vector_class(t):
 
 def interface_class(spec, t):
     return (f"s{spec['sdim']}a{spec['adim']}e{spec['edim']}",
-            spec["order"], "p1" if spec["prob1"] else "p0", zero_vector_class(t))
+            spec["order"], ("p1" if spec["prob1"] else "p0") + ("+intrew" if spec.get("intrew") else ""), zero_vector_class(t))
 
 
 def gamma_bucket(g):
